@@ -12,7 +12,7 @@ from .c11 import nearest_f32_bits
 RULE = ("arrays with 1-3 channels and extents 1..9 per axis (odd, even, size 1), data types u8/u16/u32/u64/"
         "float32, factors {1,2}^3 for averaging and {1,2,3,4}^3 for majority/striding, value patterns "
         "(0/1/type max/max-1/2^24±1/random/few labels/half-half ties with the larger label first), outside "
-        "values None, 0, 1, 7, 255, type max, 0.5; real Downscaler.downscale vs exact oracle (Fractions) and "
+        "values None, 0, 1, 7, 255, type max, 0.5, methods obtained by name or as `auto` + info type; real Downscaler.downscale vs exact oracle (Fractions) and "
         "vs the Lean model; thorough adds all shapes <= 4^3 x all factor triples. Trivial = all factors 1.")
 ASSUMPTIONS = [
     "float64 arithmetic is exact on integer data below 2^50 (sums of 8 values, halvings)",
